@@ -51,6 +51,8 @@ type spy struct {
 	calls []spyCall
 	// failRead: the next Read fails with an I/O error that is not end-of-file, without reaching the session
 	failRead bool
+	// failRelease: the next Clunk/Remove fails in transit, without reaching the session
+	failRelease bool
 }
 
 func (y *spy) add(c spyCall) { y.calls = append(y.calls, c) }
@@ -66,11 +68,23 @@ func (y *spy) Attach(ctx context.Context, fid, afid p9p.Fid, uname, aname string
 	return q, err
 }
 func (y *spy) Clunk(ctx context.Context, fid p9p.Fid) error {
+	if y.failRelease {
+		y.failRelease = false
+		err := errors.New("injected transport failure")
+		y.add(spyCall{Method: "clunk", Fid: fid, Err: err})
+		return err
+	}
 	err := y.s.Clunk(ctx, fid)
 	y.add(spyCall{Method: "clunk", Fid: fid, Err: err})
 	return err
 }
 func (y *spy) Remove(ctx context.Context, fid p9p.Fid) error {
+	if y.failRelease {
+		y.failRelease = false
+		err := errors.New("injected transport failure")
+		y.add(spyCall{Method: "remove", Fid: fid, Err: err})
+		return err
+	}
 	err := y.s.Remove(ctx, fid)
 	y.add(spyCall{Method: "remove", Fid: fid, Err: err})
 	return err
@@ -177,6 +191,9 @@ func genCOp(t *rapid.T) COp {
 	case "clunk", "remove", "stat", "wstat", "attach":
 		if rapid.IntRange(0, 9).Draw(t, "faultp") == 0 {
 			op.Fault = op.Kind
+		}
+		if (op.Kind == "clunk" || op.Kind == "remove") && rapid.IntRange(0, 5).Draw(t, "transitp") == 0 {
+			op.Fault = "spyrelease"
 		}
 	}
 	return op
@@ -482,7 +499,17 @@ func RunC20(c ClientCase) harn.Result {
 				return fail(i, op, "client err=%v, session err=%v", err, sc.Err)
 			}
 		case "wstat":
-			err := cur.ent.WStat(ctx, p9p.Dir{Mode: 0600, Length: ^uint64(0)})
+			// one wstat in three changes nothing (every field "don't touch": the sync request), in two shapes
+			d := p9p.Dir{Mode: 0600, Length: ^uint64(0)}
+			switch (i + op.Ent) % 6 {
+			case 0:
+				d = SyncDir()
+				cl["wstat_sync"] = true
+			case 1:
+				d = p9p.Dir{Mode: ^uint32(0), Length: ^uint64(0)}
+				cl["wstat_sync"] = true
+			}
+			err := cur.ent.WStat(ctx, d)
 			sc, v := expectOne("wstat")
 			if v != "" {
 				return fail(i, op, "%s", v)
@@ -492,6 +519,11 @@ func RunC20(c ClientCase) harn.Result {
 			}
 		case "clunk", "remove":
 			var err error
+			inTransit := op.Fault == "spyrelease"
+			if inTransit {
+				y.failRelease = true
+				cl["release_fails_in_transit"] = true
+			}
 			if op.Kind == "clunk" {
 				err = cur.ent.Clunk(ctx)
 			} else {
@@ -503,6 +535,11 @@ func RunC20(c ClientCase) harn.Result {
 			}
 			if (err == nil) != (sc.Err == nil) {
 				return fail(i, op, "client err=%v, session err=%v", err, sc.Err)
+			}
+			if inTransit {
+				// the request never reached the server: the fid is still bound there and the entry is
+				// still the caller's to release (a later clunk/remove step retries)
+				break
 			}
 			drop()
 		}
